@@ -210,6 +210,18 @@ where
             proof.ext_degree
         )));
     }
+    // The ALU AIR below takes the binomial parameter `W` from `SC::Challenge`, never from the
+    // proof. Like the native verifier, require the proof's metadata to declare the same value.
+    let expected_w = if TRACE_D > 1 {
+        SC::Challenge::extract_w()
+    } else {
+        None
+    };
+    if proof.w_binomial != expected_w {
+        return Err(VerificationError::InvalidProofShape(
+            "proof binomial W does not match the verifier's expected trace field".to_string(),
+        ));
+    }
     let rows: RowCounts = proof.rows;
     let packing = proof.table_packing.clone();
     let public_lanes = packing.public_lanes();
